@@ -536,12 +536,21 @@ impl<'a, 'tcx> BodyCx<'a, 'tcx> {
                     }
                     AggregateKind::Closure(did, _) => {
                         let mut caps = Vec::new();
+                        let mut modes = Vec::new();
                         if let Some(ld) = did.as_local() {
                             for c in tcx.closure_captures(ld) {
                                 caps.push(esc(&c.to_string(tcx)));
+                                let m = match c.info.capture_kind {
+                                    ty::UpvarCapture::ByValue => "value",
+                                    ty::UpvarCapture::ByUse => "use",
+                                    ty::UpvarCapture::ByRef(ty::BorrowKind::Mutable) => "mut",
+                                    ty::UpvarCapture::ByRef(ty::BorrowKind::UniqueImmutable) => "uniq",
+                                    ty::UpvarCapture::ByRef(ty::BorrowKind::Immutable) => "ref",
+                                };
+                                modes.push(esc(m));
                             }
                         }
-                        obj(vec![("t", esc("closure")), ("def", esc(&self.cx.path(*did))), ("caps", arr(caps))])
+                        obj(vec![("t", esc("closure")), ("def", esc(&self.cx.path(*did))), ("caps", arr(caps)), ("capmodes", arr(modes))])
                     }
                     _ => obj(vec![("t", esc("other"))]),
                 };
